@@ -644,7 +644,8 @@ def _main(prop, tier, seed, replay, tmpdir, t0):
         "property_id": prop_id,
         "tier": tier,
         "seed": seed,
-        "level": getattr(prop, "LEVEL", "proof"),
+        # a run in which the theorems did not check is not proof-level evidence
+        "level": getattr(prop, "LEVEL", "proof") if (nth and not proof_state["error"]) else "other",
         "coverage": {
             "obligations": max(nth, 1) if not proof_state["error"] else max(nth, 1),
             "discharged": nth if not proof_state["error"] else 0,
@@ -669,7 +670,8 @@ def _main(prop, tier, seed, replay, tmpdir, t0):
             "correspondence_failures": len(model_fails),
             "oracle_failures": len(oracle_fails),
             "known_findings_matched": sorted(reported_sigs),
-            "explanation": getattr(prop, "EXPLANATION", ""),
+            "explanation": (getattr(prop, "EXPLANATION", "") or "see rule") + (
+                "" if not proof_state["error"] else " -- PROOF STAGE FAILED ON THIS RUN: " + proof_state["error"][:300]),
             "exhaustive": bool(getattr(prop, "EXHAUSTIVE", {}).get(tier, False)),
         },
         "assumptions": list(getattr(prop, "ASSUMPTIONS", [])),
